@@ -1016,8 +1016,8 @@ class StrategyBase(Node):
                 delta = weight * base - c.weight * self.notional_value
                 c.allocate(delta, update=update)
         else:
-            delta = weight - c.weight
-            c.allocate(delta * base, update=update)
+            delta = weight * base - c.weight * self.value
+            c.allocate(delta, update=update)
 
     @cy.locals(update=cy.bint)
     def close(self, child, update=True):
